@@ -24,7 +24,7 @@ class ConnPoolSpec(Spec):
                 'quick': [('core', 5), ('nofault', 2), ('disc_fail', 1), ('cancel', 1), ('prune_all', 1), ('prune_busy', 1)],
                 'thorough': [('core', 5), ('nofault', 2), ('disc_fail', 1), ('cancel', 1), ('prune_all', 1), ('prune_busy', 1)],
             }
-            self.runs = {'quick': 20000, 'thorough': 600000}
+            self.runs = {'quick': 200000, 'thorough': 4000000}
             self.rule = ('one run = one seeded world (1-10 databases, capacity 1-8, 1-40 clients, drawn latencies, '
                          'fault kinds enabled per run) executed to quiescence with invariants I1-I8 evaluated after every '
                          'event-loop callback; non-trivial = at least one acquire() was issued while another was pending; '
@@ -32,10 +32,10 @@ class ConnPoolSpec(Spec):
                          'disconnect/fail/prune/stall with client and database index) among non-trivial runs')
         else:
             self.strata = {
-                'quick': [('core', 6), ('nofault', 3)],
-                'thorough': [('core', 6), ('nofault', 3)],
+                'quick': [('core', 6), ('nofault', 3), ('disc_fail', 1), ('cancel', 1), ('prune_busy', 1)],
+                'thorough': [('core', 6), ('nofault', 3), ('disc_fail', 1), ('cancel', 1), ('prune_busy', 1)],
             }
-            self.runs = {'quick': 20000, 'thorough': 600000}
+            self.runs = {'quick': 200000, 'thorough': 4000000}
             self.rule = ('same world as C15; oracle = every acquire() resolves: violation iff an acquire is pending while the '
                          'environment is quiescent (faults stopped, no connect/disconnect in flight, every holder released, no '
                          'arrivals left) and either the loop is idle or `bound` simulated seconds pass without any request '
@@ -52,3 +52,214 @@ class ConnPoolSpec(Spec):
 
 
 SPECS = {'C15': ConnPoolSpec('C15'), 'C16': ConnPoolSpec('C16')}
+
+
+# ---------------------------------------------------------------------------
+# Sensitivity mutants (applied to the source text in memory, never on disk).
+# A mutant whose `old` text is no longer in the source reports "unavailable".
+# ---------------------------------------------------------------------------
+F = 'edb/server/connpool/pool.py'
+
+C15_MUTANTS = [
+    {'name': 'connect_failure_keeps_capacity', 'expect': 'I2',
+     'patches': [(F, """            self._failed_connects += 1
+            self._cur_capacity -= 1
+""", """            self._failed_connects += 1
+""")]},
+    {'name': 'room_for_new_conns_le', 'expect': 'I1',
+     'patches': [(F, "room_for_new_conns = self._cur_capacity < self._max_capacity",
+                  "room_for_new_conns = self._cur_capacity <= self._max_capacity")]},
+    {'name': 'transfer_connects_before_disconnect', 'expect': 'I1',
+     'patches': [(F, """        try:
+            await self._disconnect(from_conn, from_block)
+        except Exception:
+            # _disconnect() has accounted for the failure and released the
+            # capacity of the old connection either way. The target block is
+            # still owed the connection we promised it in
+            # _schedule_transfer() (to_block.pending_conns), so carry on.
+            pass
+        from_block.log_connection('transferred out')
+        self._cur_capacity += 1
+        await self._connect(to_block, started_at, 'transferred in')
+""", """        self._cur_capacity += 1
+        await self._connect(to_block, started_at, 'transferred in')
+        try:
+            await self._disconnect(from_conn, from_block)
+        except Exception:
+            pass
+        from_block.log_connection('transferred out')
+""")]},
+    {'name': 'connect_releases_twice', 'expect': 'I3',
+     'patches': [(F, """        # Release the connection to block waiters.
+        block.release(conn)
+""", """        # Release the connection to block waiters.
+        block.release(conn)
+        block.release(conn)
+"""), (F, """        block = self._blocks[dbname]
+        assert not block.conns[conn].in_use
+        block.inc_acquire_counter()""", """        block = self._blocks[dbname]
+        block.inc_acquire_counter()""")]},
+    {'name': 'prune_takes_in_use_connections', 'expect': 'I4',
+     'patches': [(F, """        conns = []
+        while (conn := block.try_steal()) is not None:
+            conns.append(conn)
+""", """        conns = []
+        while (conn := block.try_steal()) is not None:
+            conns.append(conn)
+        for conn, st in block.conns.items():
+            if st.in_use:
+                st.in_use = False
+                conns.append(conn)
+""")]},
+    {'name': 'free_into_starving_reuses_connection', 'expect': 'I5',
+     'patches': [(F, """        self._schedule_transfer(from_block, conn, to_block)
+
+        self._log_to_snapshot(
+            dbname=to_block.dbname,
+            event=label,
+            value=1,
+        )
+""", """        to_block.conns[conn] = from_block.conns.pop(conn)
+        to_block.release(conn)
+""")]},
+    {'name': 'discard_decrements_capacity_twice', 'expect': 'I2',
+     'patches': [(F, """        await self._disconnect(conn, block)
+        block.log_connection("discarded")
+""", """        await self._disconnect(conn, block)
+        self._cur_capacity -= 1
+        block.log_connection("discarded")
+""")]},
+    {'name': 'discard_disconnects_twice', 'expect': 'I6',
+     'patches': [(F, """        await self._disconnect(conn, block)
+        block.log_connection("discarded")
+""", """        await self._disconnect(conn, block)
+        self._cur_capacity += 1
+        await self._disconnect(conn, block)
+        block.log_connection("discarded")
+""")]},
+    {'name': 'discard_on_release_skips_disconnect', 'expect': 'I7',
+     'patches': [(F, """                self._schedule_discard(block, conn)
+                self._schedule_new_conn(block)
+""", """                block.conns.pop(conn)
+                self._schedule_new_conn(block)
+""")]},
+    {'name': 'new_conn_not_counted', 'expect': 'I1/I2',
+     'patches': [(F, """        started_at = time.monotonic()
+        self._cur_capacity += 1
+        block.pending_conns += 1
+""", """        started_at = time.monotonic()
+        if block.pending_conns == 0:
+            self._cur_capacity += 1
+        block.pending_conns += 1
+""")]},
+    {'name': 'revert_fix_transfer_disconnect_failure', 'expect': 'I7', 'strata': ['disc_fail'],
+     'reverts': 'C15-transfer-disconnect-failure',
+     'patches': [(F, """        try:
+            await self._disconnect(from_conn, from_block)
+        except Exception:
+            # _disconnect() has accounted for the failure and released the
+            # capacity of the old connection either way. The target block is
+            # still owed the connection we promised it in
+            # _schedule_transfer() (to_block.pending_conns), so carry on.
+            pass
+        from_block.log_connection('transferred out')
+""", """        await self._disconnect(from_conn, from_block)
+        from_block.log_connection('transferred out')
+""")]},
+]
+
+REVERT_A = {'name': 'revert_fix_feed_connless_blocks', 'expect': 'L2', 'reverts': 'C16-connless-blocks',
+            'patches': [(F, """        self._feed_connless_blocks()
+
+        # If we're managing""", """        # If we're managing""")]}
+REVERT_B = {'name': 'revert_fix_prune_leak', 'expect': 'L2', 'reverts': 'C16-prune-leak', 'budget': 200000,
+            'strata': ['core'],
+            'patches': [(F, """        try:
+            while not block.count_waiters() and block.pending_conns:
+                # try_acquire, because it can get stolen
+                if c := await block.try_acquire():
+                    conns.append(c)
+        finally:
+            # If a pending connection fails, the wait above is aborted with
+            # the connect error. The connections taken out of the stack so
+            # far must still be closed, or they would stay in the block
+            # forever: never idle, never in use, counted against the capacity.
+            if conns:
+                await asyncio.gather(
+                    *(self._discard_conn(block, conn) for conn in conns),
+                    return_exceptions=True
+                )
+""", """        while not block.count_waiters() and block.pending_conns:
+            # try_acquire, because it can get stolen
+            if c := await block.try_acquire():
+                conns.append(c)
+
+        if conns:
+            await asyncio.gather(
+                *(self._discard_conn(block, conn) for conn in conns),
+                return_exceptions=True
+            )
+""")]}
+REVERT_C = dict(C15_MUTANTS[-1], expect='L2', reverts='C16-transfer-disconnect-failure')
+REVERT_D = {'name': 'revert_fix_cancel_lost_wakeup', 'expect': 'L2', 'strata': ['cancel'],
+            'reverts': 'C16-cancel-lost-wakeup', 'budget': 100000,
+            'patches': [(F, """                    await waiter
+                except BaseException:""", """                    await waiter
+                except Exception:""")]}
+
+C16_MUTANTS = [
+    REVERT_A, REVERT_B, REVERT_C, REVERT_D,
+    {'name': 'release_without_wakeup', 'expect': 'L1/L2',
+     'patches': [(F, """        self.conns[conn].in_stack_since = time.monotonic()
+        # and call the queue.
+        self._wakeup_next_waiter()
+""", """        self.conns[conn].in_stack_since = time.monotonic()
+""")]},
+    {'name': 'retry_exhaustion_leaves_waiters', 'expect': 'L2',
+     'patches': [(F, """                block.abort_waiters(e)
+            else:""", """                pass
+            else:""")]},
+    {'name': 'connect_failure_not_retried', 'expect': 'L2',
+     'patches': [(F, """                # will jump in and schedule more retries than what we expected.
+                self._schedule_new_conn(block, event)
+""", """                # will jump in and schedule more retries than what we expected.
+                pass
+""")]},
+    {'name': 'abort_one_retry_early', 'expect': 'L3',
+     'patches': [(F, """            if block.connect_failures_num > config.CONNECT_FAILURE_RETRIES:
+                # Abort all waiters""", """            if block.connect_failures_num >= config.CONNECT_FAILURE_RETRIES:
+                # Abort all waiters""")]},
+    {'name': 'abort_waiters_of_all_blocks', 'expect': 'L3',
+     'patches': [(F, """                block.abort_waiters(e)
+            else:""", """                for b in self._blocks.values():
+                    b.abort_waiters(e)
+            else:""")]},
+    {'name': 'tick_not_rescheduled', 'expect': 'L1/L2',
+     'patches': [(F, """        if self._nacquires:
+            # Schedule the next tick if we're still in Mode C/D.
+            self._maybe_schedule_tick()
+
+        now = time.monotonic()""", """        now = time.monotonic()""")]},
+    {'name': 'woken_waiter_does_not_retry', 'expect': 'L3',
+     'patches': [(F, """        while (c := await self.try_acquire(attempts=attempts)) is None:
+            attempts += 1
+        return c""", """        c = await self.try_acquire(attempts=attempts)
+        return c""")]},
+    {'name': 'wakeup_pops_two', 'expect': 'L2',
+     'patches': [(F, """            if not waiter.done():
+                waiter.set_result(None)
+                break
+""", """            if not waiter.done():
+                waiter.set_result(None)
+                if self.conn_waiters:
+                    self.conn_waiters.popleft()
+                break
+""")]},
+]
+
+SPECS['C15'].mutants = C15_MUTANTS
+SPECS['C15'].quick_mutants = ['connect_failure_keeps_capacity', 'connect_releases_twice',
+                              'room_for_new_conns_le', 'revert_fix_transfer_disconnect_failure']
+SPECS['C16'].mutants = C16_MUTANTS
+SPECS['C16'].quick_mutants = ['revert_fix_feed_connless_blocks', 'release_without_wakeup',
+                              'revert_fix_cancel_lost_wakeup', 'abort_one_retry_early']
